@@ -439,17 +439,39 @@ func (c *caseRun) openLocked(p *podRT, random bool, blockFd int, blocker string)
 		return true
 	}
 	if err != nil && failIdx < 0 {
-		// a fixed port taken by a process that is not ours => not galaxy's fault: the case is skipped
-		for _, port := range req {
-			if port.HostPort > 0 {
-				pr := strings.ToLower(port.Protocol)
-				if probe(pr, int(port.HostPort)) == "inuse" {
-					if found, ours := heldByUs(pr, int(port.HostPort)); found && !ours {
-						c.skipped = fmt.Sprintf("port %s/%d taken by a foreign process during the case", pr, port.HostPort)
-						c.failed = true
-						return false
+		// No port of this request is held by this galaxy or by the harness. "address already in use" on a port whose
+		// holder is not a socket of this process is the environment (another check running in parallel, any other
+		// process): counted, the case is abandoned. A holder inside this process stays a violation.
+		if strings.Contains(err.Error(), "address already in use") {
+			var named int
+			if i := strings.Index(err.Error(), "cannot open hostport "); i >= 0 {
+				fmt.Sscanf(err.Error()[i+len("cannot open hostport "):], "%d", &named)
+			}
+			oursHolds := false
+			for _, port := range req {
+				if named > 0 && int(port.HostPort) == named {
+					pr := strings.ToLower(port.Protocol)
+					if holder(pr, named) == "ours" {
+						oursHolds = true
 					}
 				}
+			}
+			if named > 0 && !oursHolds {
+				c.count("open_failed_port_taken_by_other_process", 1)
+				c.skipped = fmt.Sprintf("port %d taken by another process during the case", named)
+				c.failed = true
+				// whatever this call opened before the foreign port must still have been released by galaxy
+				for _, port := range p.ports {
+					if port.HostPort > 0 && int(port.HostPort) != named {
+						pr := strings.ToLower(port.Protocol)
+						if _, heldByPod := c.held[keyOf(port)]; !heldByPod && probe(pr, int(port.HostPort)) != "free" && holder(pr, int(port.HostPort)) == "ours" {
+							c.failed, c.skipped = false, ""
+							c.violate("failed-open-leaves-port-bound-port-taken-by-other-process", fmt.Sprintf("OpenHostports(%s) failed on foreign-held port %d but %s/%d opened by the same call is still bound by this process",
+								p.spec.Full(), named, pr, port.HostPort), map[string]interface{}{"requested": req, "after_call": p.ports})
+						}
+					}
+				}
+				return false
 			}
 		}
 		c.violate("open-fails-on-free-ports", fmt.Sprintf("OpenHostports(%s) failed although no requested port is held: %v", p.spec.Full(), err),
@@ -472,13 +494,14 @@ func (c *caseRun) openLocked(p *podRT, random bool, blockFd int, blocker string)
 				c.count("errpath_random_ports_probed", 1)
 			}
 			if st := probe(pr, int(port.HostPort)); st != "free" {
-				found, ours := heldByUs(pr, int(port.HostPort))
-				if st == "inuse" && found && !ours {
-					c.count("foreign_grabbed_port_after_release", 1)
+				// only a socket of this process is galaxy's doing; any other holder took the port after its release
+				who := holder(pr, int(port.HostPort))
+				if st == "inuse" && who != "ours" {
+					c.count("released_port_taken_by_other_process", 1)
 					continue
 				}
-				c.violate("failed-open-leaves-port-bound-"+cause, fmt.Sprintf("OpenHostports(%s) failed at port #%d (%s) but port #%d %s/%d opened by the same call is still bound (%s, owned by this process=%v)",
-					p.spec.Full(), failIdx, cause, i, pr, port.HostPort, st, ours), map[string]interface{}{"requested": req, "after_call": p.ports})
+				c.violate("failed-open-leaves-port-bound-"+cause, fmt.Sprintf("OpenHostports(%s) failed at port #%d (%s) but port #%d %s/%d opened by the same call is still bound (%s, holder=%s)",
+					p.spec.Full(), failIdx, cause, i, pr, port.HostPort, st, who), map[string]interface{}{"requested": req, "after_call": p.ports})
 				return false
 			}
 		}
@@ -574,13 +597,13 @@ func (c *caseRun) closeLocked(p *podRT) {
 		pr := strings.ToLower(port.Protocol)
 		c.count("bind_probes_after_close", 1)
 		if st := probe(pr, int(port.HostPort)); st != "free" {
-			found, ours := heldByUs(pr, int(port.HostPort))
-			if st == "inuse" && found && !ours {
-				c.count("foreign_grabbed_port_after_release", 1)
+			who := holder(pr, int(port.HostPort))
+			if st == "inuse" && who != "ours" {
+				c.count("released_port_taken_by_other_process", 1)
 				continue
 			}
-			c.violate("port-still-bound-after-close", fmt.Sprintf("%s/%d of %s: bind gives %q after CloseHostports (owned by this process=%v)",
-				pr, port.HostPort, p.spec.Full(), st, ours), nil)
+			c.violate("port-still-bound-after-close", fmt.Sprintf("%s/%d of %s: bind gives %q after CloseHostports (holder=%s)",
+				pr, port.HostPort, p.spec.Full(), st, who), nil)
 			return
 		}
 	}
